@@ -76,6 +76,56 @@ def _loader_with(ctx, loader, reader):
     return w, call
 
 
+# the order in which the loaders pass their values to a reader / skipper (roles by position; a parameter that still carries the role's
+# name is found by name, so re-ordering *or* renaming parameters is harmless)
+ROLES = {
+    "ascii": ("wper", "r", "c", "rows", "cols", "line", "numlen", "perline", "linelen", "funcs"),
+    "binary": ("fp", "wper", "r", "c", "rows", "cols", "nwords", "reclen", "bytesreal", "numform", "numform2", "funcs"),
+    "skip_ascii": ("perline", "rows", "cols", "mtype"),
+    "skip_binary": ("cols",),
+}
+
+
+def _role(values, fn, kind, role):
+    """value bound to the parameter of `fn` that plays `role`: values = {parameter name: value}"""
+    params = [a.arg for a in fn.args.args]
+    if params and params[0] in ("self", "cls"):
+        params = params[1:]
+    if role in params:
+        return values.get(role)
+    ref = ROLES[kind]
+    if len(params) == len(ref) and not (set(params) & (set(ref) - {p for p in params})):
+        return values.get(params[ref.index(role)])
+    i = ref.index(role)
+    return values.get(params[i]) if i < len(params) and params[i] not in ref else None
+
+
+def _role_name(fn, kind, role):
+    """current name of the parameter of `fn` that plays `role`"""
+    params = [a.arg for a in fn.args.args]
+    if params and params[0] in ("self", "cls"):
+        params = params[1:]
+    if role in params:
+        return role
+    ref = ROLES[kind]
+    i = ref.index(role)
+    return params[i] if i < len(params) and params[i] not in ref else None
+
+
+def _skip_args(w, skf, name="self._skipop4_ascii"):
+    """{parameter of the skipper: value} the loader passes to it; the skipper may be called on several paths, with the same values"""
+    calls = [e for e in w.events if e[0] == "call" and e[1] == name]
+    if not calls:
+        return None
+    names = [x.arg for x in skf.args.args][1:]
+    first = place(calls[0][2], calls[0][3], names)
+    for e in calls[1:]:
+        a = place(e[2], e[3], names)
+        if set(a) != set(first) or not all(C.same(a[k], first[k], whole_values=False) for k in a):
+            return None
+    return first
+
+
 def _lv_in(v, frame):
     """the loop-carried placeholders of one loop frame occurring in a formula"""
     out = []
@@ -128,12 +178,8 @@ def _rat(v):
 
 # ------------------------------------------------------------------------------------------------------------------ R1
 def _leaf_label(path):
-    last = None
-    for c, take in path:
-        last = (c, take)
-        if take:
-            pass
-    if last is None:
+    """name of one format binding: the last selection taken, e.g. `form == 'uint'`"""
+    if not path:
         return "all"
     trues = [c for c, take in path if take]
     if trues:
@@ -179,7 +225,7 @@ def _check_site(ctx, q, c, tbs, extra=None, site_label=""):
             code = si[1][0][1]
             kind, size = dt[1], dt[2]
             ok = STRUCT_SIZE[code] == size and C.same(bnum, F.const(size)) and STRUCT_KIND[code] == NP_KIND[kind] and si[0] == dt[0]
-            ctx.check(ok, f"{nm} [{key}, {bits}-bit keys]: struct code '{code}' and numpy dtype '{kind}{size}' decode the same type from the same "
+            ctx.check(ok, f"{nm}{site_label} [{key}, {bits}-bit keys]: struct code '{code}' and numpy dtype '{kind}{size}' decode the same type from the same "
                           f"bytes per value on both sides of the 3000-value cut-over", node,
                       None if ok else {"struct": ftxt, "numpy": dtxt, "bytes per value read by the struct side": repr(C.norm(bnum)),
                                        "witness": "a string of 3000 or more values is decoded by np.fromfile, a shorter one by struct.unpack: with different "
@@ -197,7 +243,7 @@ def _check_site(ctx, q, c, tbs, extra=None, site_label=""):
     t = C.fn_parts(C.norm(c["test"])) if _rat(c["test"]) else None
     ok = t is not None and t[0] == "ge0"
     if ok:
-        syms = {d[1] for d in C.walk_atoms(t[1][0] + cnt - cnt) if d[0] == "s"}
+        syms = {d[1] for d in C.walk_atoms(t[1][0]) if d[0] == "s"}
         ok = any("utoff" in s for s in syms)
     ctx.check(ok, f"{nm}{site_label}: the switch is on the tunable cut-off only", node, nontrivial=False)
 
@@ -206,7 +252,6 @@ def r1_cutover_pairs(ctx):
     tbs = T.tables(ctx)
     # ---- op4: the three binary readers, evaluated on the values `_loadop4_binary` passes them
     n4 = 0
-    lf = ctx.src.func(OP4, "OP4._loadop4_binary")
     for reader in ("_rd_dense_binary", "_rd_bigmat_binary", "_rd_nonbigmat_binary"):
         rf = ctx.src.func(OP4, "OP4." + reader)
         w, call = _loader_with(ctx, "_loadop4_binary", reader)
@@ -218,14 +263,9 @@ def r1_cutover_pairs(ctx):
             ctx.error(f"{reader}: cut-over site", rf, len(sites))
             continue
         n4 += 1
-        # words per value: parameter 1 of the reader (after the file) -- taken by position from the reader's own signature
-        params = [a.arg for a in rf.args.args][1:]
-        wv = None
-        ev = [e for e in w.events if e[0] == "unpack"]
-        # the value bound to the reader's 2nd parameter is what the loader passed there
-        bound = getattr(w, "bound", {}).get(id(rf))
-        if bound is not None and len(params) > 1:
-            wv = bound.get(params[1])
+        # words per value: what the loader passed to the reader in that role
+        bound = w.bound.get(id(rf))
+        wv = _role(bound, rf, "binary", "wper") if bound is not None else None
         _check_site(ctx, "OP4." + reader, sites[0], tbs["op4"], extra=[wv])
     # ---- op2
     n2 = 0
@@ -426,20 +466,23 @@ def r3_sibling_decoders(ctx):
         bound = w.bound.get(id(rf), {})
         params = [a.arg for a in rf.args.args][1:]
         binary = "binary" in reader
-        wper = bound.get(params[1] if binary else params[0])
+        wper = _role(bound, rf, "binary" if binary else "ascii", "wper")
         P, dec = _counter(lp)
         puts = _put_calls(w, lp)
         if P is None or len(puts) != 1 or not _rat(wper):
             ctx.error(f"{reader}: words-left counter / store call of the string loop", lp.node, {"counter": repr(P), "stores": len(puts)})
             continue
-        pos = puts[0][2]
-        r = pos[1] if len(pos) > 1 else None
+        # arguments of the store call by the signature of the store functions: (X, r, c, s, L, numlen) / (X, r, c, Y)
+        pf = ctx.src.func(OP4, "OP4._put_binary_values" if binary else "OP4._put_ascii_values")
+        pa = place(puts[0][2], puts[0][3], [a.arg for a in pf.args.args])
+        pnames = [a.arg for a in pf.args.args]
+        r = pa.get(pnames[1]) if len(pnames) > 1 else None
         if binary:
             sites = [c for c in w.cutovers if c["frame"].equals(lp.frame)]
             L = sites[0]["count_ff"] if len(sites) == 1 else None
         else:
-            L = pos[4] if len(pos) > 4 else None
-        res[reader] = dict(w=w, lp=lp, P=P, dec=dec, r=r, L=L, wper=wper, kind=kind, binary=binary, perline=bound.get("perline"), put=puts[0], bound=bound,
+            L = pa.get(pnames[4]) if len(pnames) > 4 else None
+        res[reader] = dict(w=w, lp=lp, P=P, dec=dec, r=r, L=L, wper=wper, kind=kind, binary=binary, perline=None if binary else _role(bound, rf, "ascii", "perline"), put=puts[0], bound=bound,
                            params=params)
     for reader, d in res.items():
         lp, dec, r, L, wper = d["lp"], d["dec"], d["r"], d["L"], d["wper"]
@@ -460,21 +503,20 @@ def r3_sibling_decoders(ctx):
                       None if ok else f"{r!r} (the ASCII and binary decoders must place the same string at the same row)",
                       key=f"C11-R3|OP4.{reader}|first row")
         else:
+            # the header of a bigmat string is the pair (L_header, row): fields 0 and 1 of the read / line that starts the loop body
             f0 = _header_field(dec - 1) if _rat(dec) else None
             f1 = _header_field(r + 1) if _rat(r) else None
-            if f0 is None or f1 is None:
-                # the arithmetic is not `header + 1` / `header - 1` of single header fields: report what it is
-                ctx.check(False, f"{reader}: bigmat words consumed per string = L_header + 1 and first row = header row - 1", lp.node,
-                          {"words": repr(dec), "row": repr(r)})
+            ok = f0 is not None and f0[1] == 0
+            ctx.check(ok, f"{reader}: bigmat words consumed per string = L_header + 1, L_header being the first header field", lp.node,
+                      None if ok else {"words": repr(dec)})
+            ok = f1 is not None and f1[1] == 1 and f0 is not None and f0[0] == f1[0] and repr(f0[2]) == repr(f1[2])
+            ctx.check(ok, f"{reader}: bigmat first row = header row - 1, the row being the second field of the same header", lp.node,
+                      None if ok else {"row": repr(r)})
+            if f0 is None:
                 continue
             W0 = dec - 1
-            ok = f0[1] == 0 and f1[1] == 1 and f0[0] == f1[0] and repr(f0[2]) == repr(f1[2])
-            ctx.check(ok, f"{reader}: the string length is header field 1 and the row is header field 2 of the same header", lp.node,
-                      None if ok else {"length": f0[:2], "row": f1[:2]})
             ok = _rat(L) and C.same(L, C.floordiv(W0 - 1, wper), whole_values=False)
             ctx.check(ok, f"{reader}: bigmat values per string = (L_header - 1) // words-per-value", lp.node, None if ok else repr(L))
-            ctx.ok(f"{reader}: bigmat words consumed per string = L_header + 1", lp.node)
-            ctx.ok(f"{reader}: bigmat first row = header row - 1", lp.node)
         # the data read for the string is what the header announces
         if d["binary"]:
             tot = C.total(lp.items, "B")
@@ -499,15 +541,14 @@ def r3_sibling_decoders(ctx):
     la, call = _loader_with(ctx, "_loadop4_ascii", "_rd_nonbigmat_ascii")
     if sk is not None and la is not None:
         skf = ctx.src.func(OP4, "OP4._skipop4_ascii")
-        skipcalls = [e for e in la.events if e[0] == "call" and e[1] == "self._skipop4_ascii"]
         mt = None
-        if len(skipcalls) == 1:
-            a = place(skipcalls[0][2], skipcalls[0][3], [x.arg for x in skf.args.args][1:])
-            mt = a.get("mtype")
+        a = _skip_args(la, skf)
+        if a is not None:
+            mt = _role(a, skf, "skip_ascii", "mtype")
         rd = res.get("_rd_nonbigmat_ascii")
         want = None
         if _rat(mt) and rd is not None:
-            want = C.renamer([(mt, F.sym("mtype"))])(rd["wper"])
+            want = C.renamer([(mt, F.sym(_role_name(skf, "skip_ascii", "mtype") or "?"))])(rd["wper"])
         # the skipper's own words-per-value: the divisor of its string length
         got = None
         for lp in C.loops_in(sk.top.items):
@@ -516,7 +557,7 @@ def r3_sibling_decoders(ctx):
                 W = _words_in([dec])[0]
                 tot = C.total(lp.items, "L")
                 for cand in ([want] if want is not None else []):
-                    if tot is not None and C.same(tot, 2 + C.floordiv(C.floordiv(F.fn("hi16", W) - 1, cand) - 1, F.sym("perline")), whole_values=False):
+                    if tot is not None and C.same(tot, 2 + C.floordiv(C.floordiv(F.fn("hi16", W) - 1, cand) - 1, F.sym(_role_name(skf, "skip_ascii", "perline") or "?")), whole_values=False):
                         got = cand
         ok = want is not None and got is not None
         ctx.check(ok, "ASCII skipper and loader derive words-per-value from the matrix type identically", skf,
@@ -690,7 +731,7 @@ def r4_read_equals_skip(ctx):
         body = C.tidy(col.items)
         if reader == "_rd_dense_binary":
             tot = C.total(body, "B")
-            nw = bound.get("nwords")
+            nw = _role(bound, rf, "binary", "nwords")
             nwp = [p for p, _v in col.carry if _rat(nw) and C.fn_parts(p)[1][1].equals(nw)]
             good, detail = tot is not None and len(nwp) == 1, None
             if good:
@@ -715,12 +756,11 @@ def r4_read_equals_skip(ctx):
         ps = _lv_in(col.test, col.frame)
         upd = [v for p, v in col.carry if len(ps) == 1 and p.equals(ps[0])]
         hf = _header_field(upd[0] + 1, anywhere=True) if len(upd) == 1 and _rat(upd[0]) else None
-        colsv = bound.get("cols")
+        colsv = _role(bound, rf, "binary", "cols")
         ok = t is not None and t[0] == "ge0" and len(ps) == 1 and _rat(colsv) and C.same(t[1][0], colsv - (ps[0] + 1)) and hf is not None \
             and hf[0] == "word" and hf[1] == 0
         ctx.check(ok, f"{reader}: reads columns while (column number of the head just read) <= cols, the condition the skipper stops on", col.node,
                   None if ok else {"test": repr(C.norm(col.test))})
-    lb = None
     w, call = _loader_with(ctx, "_loadop4_binary", "_rd_dense_binary")
     if w is not None:
         # after the reader: the rest of the sentinel record.  The reader returns the record length it read last.
@@ -758,13 +798,12 @@ def r4_read_equals_skip(ctx):
             if w is None:
                 continue
             outer = C.loops_of_call(w, rf)
-            skipcalls = [e for e in w.events if e[0] == "call" and e[1] == "self._skipop4_ascii"]
-            if len(outer) != 1 or len(skipcalls) != 1:
+            a = _skip_args(w, skf)
+            if len(outer) != 1 or a is None:
                 ctx.error(f"{reader}: column loop / skip call", rf)
                 continue
             col = outer[0]
             # the loader's header values are the skipper's arguments; the line read before the loop is the skipper's first line
-            a = place(skipcalls[0][2], skipcalls[0][3], sparams)
             mapping = [(v, F.sym(k)) for k, v in a.items() if _rat(v) and C.as_atom(v) is not None]
             line0 = [e[1] for e in w.events if e[0] == "line" and C.fn_parts(e[1])[1][0].equals(w.top.id)]
             if not line0:
@@ -805,6 +844,7 @@ def _guard_equiv(guard, want):
 def r5_listing_equals_read(ctx):
     for loader, reader, skipper in (("_loadop4_ascii", "_rd_dense_ascii", "self._skipop4_ascii"), ("_loadop4_binary", "_rd_dense_binary", "self._skipop4_binary")):
         rf = ctx.src.func(OP4, "OP4." + reader)
+        kindr = "ascii" if "ascii" in reader else "binary"
         w, call = _loader_with(ctx, loader, reader)
         if w is None:
             continue
@@ -824,22 +864,28 @@ def r5_listing_equals_read(ctx):
         bound = w.bound.get(id(rf), {})
         ok = len(lst) == 1 and len(full) == 1
         if ok:
-            L_, F_ = lst[0][0], full[0][0]
-            size = L_[1]
-            ok = isinstance(size, tuple) and len(size) == 2 and C.same(size[0], bound.get("rows")) and C.same(size[1], bound.get("cols"))
+            size = lst[0][0][1]
+            # the shape the full read allocates: init(rows, cols), element 0 of the (init, put, return) triple, called by the reader
+            inits = [e for e in w.events if e[0] == "call" and e[6] is not None and _rat(e[6]) and (C.fn_parts(e[6]) or ("",))[0] == "idx"
+                     and C.fn_parts(e[6])[1][1].is_zero() and len(e[2]) == 2]
+            shape = (inits[0][2][0], inits[0][2][1]) if len(inits) == 1 else (_role(bound, rf, kindr, "rows"), _role(bound, rf, kindr, "cols"))
+            ok = isinstance(size, tuple) and len(size) == 2 and C.same(size[0], shape[0]) and C.same(size[1], shape[1])
         ctx.check(ok, f"{loader}: a listing returns (name, (abs(rows), cols), form, mtype) with the very sizes a full read gives its reader", fn,
                   None if ok else {"listing returns": len(lst), "full returns": len(full)})
         ok = len(lst) == 1 and len(full) == 1 and all(C.same(lst[0][0][i], full[0][0][i]) for i in (0, 2, 3))
         ctx.check(ok, f"{loader}: a full read returns (name, X, form, mtype) with the same name / form / type values as the listing", fn)
         name = lst[0][0][0] if len(lst) == 1 else None
         skips = [e for e in w.events if e[0] == "call" and e[1] == skipper]
-        ok = len(skips) == 1 and _rat(name)
+        ok = len(skips) >= 1 and _rat(name)
         if ok:
-            isin = ("atom", "IN", None)
-            # skip <=> listonly or (patternlist and name not in patternlist)
+            # skip <=> listonly or (patternlist and name not in patternlist)   (the skipper may be called on several paths)
             inn = C.canon_tests(F.fn("cmp:In", name, plist))
             want = ("or", [want_l, ("and", [("atom", repr(plist), plist), ("not", ("atom", repr(inn), inn))])])
-            ok = _guard_equiv(_loop_guard(skips[0][4]), want) is True
+            try:
+                got = ("or", [C.guard_form(_loop_guard(e[4])) for e in skips])
+                ok = C.bool_equiv(got, want)
+            except Unsupported:
+                ok = False
         ctx.check(ok, f"{loader}: a matrix is skipped exactly when listing or when its name is not in the requested list", fn,
                   None if ok else {"skip calls": len(skips)})
         np_ = C.fn_parts(name) if _rat(name) else None
@@ -855,7 +901,6 @@ def r5_listing_equals_read(ctx):
         ok = len(calls) == 1
         if ok:
             e = calls[0]
-            val = C.CEval  # noqa
             # the loop ends exactly when the loader reports no name
             inloop = [lp for lp in lps if e[7].equals(lp.frame)]
             ok = len(inloop) == 1
@@ -880,17 +925,19 @@ def r5_listing_equals_read(ctx):
                     buf = p
         tr = F.sym(mt.fn.args.args[1].arg)
         ok = buf is not None
-        if ok:
+        if not ok:
+            ctx.error("rdop2matrix: allocation of the output matrix", mt.fn)
+        else:
             shp = C.fn_parts(buf[1][0])
             ok = shp is not None and shp[0] == "tuple" and len(shp[1]) == 2 and C.same(shp[1][1], F.fn("idx", tr, F.const(1)))
             if ok:
                 rows = {repr(C.norm(v[0])) for _p, v in C.leaves([shp[1][0]])}
                 t2 = F.fn("idx", tr, F.const(2))
                 ok = rows == {repr(C.norm(t2)), repr(C.norm(2 * t2))}
-        ctx.check(ok, "rdop2matrix allocates (trailer[2] rows [x 2 reals for a complex type], trailer[1] columns)", mt.fn)
+            ctx.check(ok, "rdop2matrix allocates (trailer[2] rows [x 2 reals for a complex type], trailer[1] columns)", mt.fn)
     if d is not None:
         sns = [e for e in d.events if e[0] == "call" and (e[1] or "").endswith("SimpleNamespace")]
-        ok = len(sns) == 1 and _rat(sns[0][3].get("trailer")) or (len(sns) == 1 and isinstance(sns[0][3].get("size"), tuple))
+        ok = len(sns) == 1
         if ok:
             kw = sns[0][3]
             tr, size = kw.get("trailer"), kw.get("size")
@@ -908,9 +955,13 @@ def r5_listing_equals_read(ctx):
             sn = F.sym(rmw.fn.args.args[1].arg)
             nm = C.sym_name(sn)
             ok = [e[1] for e in calls] == ["self.set_position", "self.rdop2nt", "self.rdop2matrix"] \
-                and len(calls[0][2]) >= 1 and C.same(calls[0][2][0], F.fn("attr:start", sn)) and len(calls[2][2]) == 1 and C.same(calls[2][2][0], F.fn("attr:trailer", sn))
+                and len(calls[0][2]) >= 1 and C.same(calls[0][2][0], F.fn("attr:start", sn)) and len(calls[2][2]) == 1
+            if ok:
+                # the trailer the matrix is decoded with: the one the directory stored, or the one just re-read by rdop2nt (the same record)
+                tr = calls[2][2][0]
+                ok = C.same(tr, F.fn("attr:trailer", sn)) or (_rat(calls[1][8]) and C.same(tr, F.fn("idx", calls[1][8], F.const(1))))
             ctx.check(ok, "_rdmat: a positioned read seeks to the start recorded by the directory scan, re-reads name and trailer, and decodes with the "
-                          "trailer the directory stored", rmw.fn)
+                          "trailer of that data block", rmw.fn)
 
 
 def _loop_guard(guard, syms=("listonly", "patternlist")):
@@ -1014,15 +1065,14 @@ def r7_announced_format(ctx):
     rf = ctx.src.func(OP4, "OP4._rd_dense_ascii")
     skf = ctx.src.func(OP4, "OP4._skipop4_ascii")
     bound = w.bound.get(id(rf), {})
-    skipcalls = [e for e in w.events if e[0] == "call" and e[1] == "self._skipop4_ascii"]
-    a = place(skipcalls[0][2], skipcalls[0][3], [x.arg for x in skf.args.args][1:]) if len(skipcalls) == 1 else {}
-    pl, nl, pl2 = bound.get("perline"), bound.get("numlen"), a.get("perline")
+    a = _skip_args(w, skf) or {}
+    pl, nl, pl2 = _role(bound, rf, "ascii", "perline"), _role(bound, rf, "ascii", "numlen"), _role(a, skf, "skip_ascii", "perline")
     if not (_rat(pl) and _rat(nl) and _rat(pl2)):
         ctx.error("_loadop4_ascii: perline / numlen passed to the reader and the skipper", fn)
         return
     ok = C.same(pl, pl2, whole_values=False)
     ctx.check(ok, "_loadop4_ascii: the skipper is given the values-per-line the reader is given", fn)
-    ll = bound.get("linelen")
+    ll = _role(bound, rf, "ascii", "linelen")
     ok = _rat(ll) and C.same(ll, pl * nl, whole_values=False)
     ctx.check(ok, "_loadop4_ascii: the used part of a data line is perline * field width characters", fn)
     for label, v in (("values per line", pl), ("field width", nl)):
@@ -1077,9 +1127,8 @@ def r8_name_selection(ctx):
         ctx.error("_has_match(name, names)", fn)
         return
     name = F.sym(params[0])
-    trues = [r for r in w.returns if _rat(r[0]) and (C.sym_name(r[0]) == "True" or r[0].equals(F.const(1)))]
-    if not trues:
-        ctx.error("_has_match: `return True`", fn)
+    if not w.returns:
+        ctx.error("_has_match: returned value", fn)
         return
 
     def mentions(v, what):
@@ -1091,10 +1140,17 @@ def r8_name_selection(ctx):
         if p is None:
             return "other"
         if p[0] == "eq0":
-            # an equality between the name and something that does not contain the name
+            # an equality between the whole name (possibly case-normalised) and something that does not contain the name
             d = p[1][0]
-            if mentions(d, name) and not any(dd[0] == "fn" and mentions(F.Rat(F.Poly.atom(F._intern(dd))), name) for dd in C.walk_atoms(d) if dd[0] == "fn"):
-                return "eq"
+            terms = [F.Rat(F.Poly({m: c})) for m, c in d.n.t.items()] if d.d.is_const() else []
+            if len(terms) == 2:
+                sides = [t if C.as_atom(t) is not None else -t for t in terms]
+                for a, b in (sides, sides[::-1]):
+                    pa = C.fn_parts(a)
+                    whole_name = a.equals(name) or (pa is not None and pa[0].split(".")[-1] in ("upper", "lower", "casefold")
+                                                    and (pa[0] == f"call:{params[0]}." + pa[0].split(".")[-1] or (pa[1] and _rat(pa[1][0]) and pa[1][0].equals(name))))
+                    if whole_name and C.as_atom(b) is not None and not mentions(b, name):
+                        return "eq"
             if any(dd[0] == "s" and dd[1] in ("'*'", '"*"') for dd in C.walk_atoms(d)):
                 return "wild"
             return "other"
@@ -1105,32 +1161,48 @@ def r8_name_selection(ctx):
                 return "wild"
         return "other"
 
+    # selection predicate: OR over the returns of (guard and truth of the returned value); `any(<test> for ...)` is the truth of <test>
+    def truth(v):
+        if not _rat(v):
+            raise Unsupported("returned value cannot be lowered")
+        if C.sym_name(v) == "True" or v.equals(F.const(1)):
+            return ("const", True)
+        if C.sym_name(v) in ("False", "None") or v.is_zero():
+            return ("const", False)
+        p = C.fn_parts(v)
+        if p is not None and p[0] == "call:any" and len(p[1]) == 1 and _rat(p[1][0]):
+            q = C.fn_parts(p[1][0])
+            if q is not None and q[0] == "comp" and _rat(q[1][0]):
+                return C.bool_form(q[1][0])
+        return C.bool_form(v)
+
     proved, undecided = None, None
-    for r in trues:
-        try:
-            g = C.guard_form(tuple((c, pol) for c, pol in r[1] if not C.fn_parts(c) or C.fn_parts(c)[0] not in ("count",)))
-        except Unsupported as e:
-            undecided = str(e)
-            continue
-        atoms = C.bool_atoms(g)
+    try:
+        parts = []
+        for r in w.returns:
+            g = C.guard_form(tuple((c, pol) for c, pol in r[1] if _rat(c) and (C.fn_parts(c) or ("",))[0] != "count"))
+            parts.append(("and", [g, truth(r[0])]))
+        pred = ("or", parts)
+        atoms = C.bool_atoms(pred)
         kinds = {k: classify(v) for k, v in atoms.items()}
-        if any(kd == "other" for kd in kinds.values()):
-            undecided = [repr(atoms[k]) for k, kd in kinds.items() if kd == "other"]
-            continue
         for asg in C.assignments(atoms.keys()):
-            if not C.bool_eval(g, asg):
+            if any(asg[k] for k, kd in kinds.items() if kd in ("eq", "wild")) or not C.bool_eval(pred, asg):
                 continue
-            if not any(asg[k] for k, kd in kinds.items() if kd in ("eq", "wild")):
-                proved = {"return True reached with": {repr(atoms[k]): asg[k] for k in atoms},
-                          "witness": "rdop2mats(['kaa']) on a file holding KAA and KAAX returns both; filtering the full read by the name gives KAA only"}
-                break
+            if any(asg[k] for k, kd in kinds.items() if kd == "other"):
+                undecided = [repr(atoms[k]) for k, kd in kinds.items() if kd == "other"]
+                continue
+            proved = {"a name is selected with": {repr(atoms[k]): asg[k] for k in atoms},
+                      "witness": "rdop2mats(['kaa']) on a file holding KAA and KAAX returns both; filtering the full read by the name gives KAA only"}
+            break
+    except Unsupported as e:
+        undecided = str(e)
     if proved is None and undecided is not None:
         ctx.error("_has_match: the condition under which a data block name is selected cannot be lowered", fn, undecided)
-        return
-    ctx.check(proved is None, "_has_match: a name is selected only by equality with a requested name, or by its prefix when the requested name "
-                              "carries the wild card `*` (never by a prefix test alone)", fn, proved)
+    else:
+        ctx.check(proved is None, "_has_match: a name is selected only by equality with a requested name, or by its prefix when the requested name "
+                                  "carries the wild card `*` (never by a prefix test alone)", fn, proved)
     # both sides are compared in upper case
-    ups = [d for r in trues for c, _pol in r[1] if _rat(c) for d in C.walk_atoms(c) if d[0] == "fn" and d[1].endswith(".upper")]
+    ups = [d for r in w.returns for c in [x for x, _pol in r[1]] + [r[0]] if _rat(c) for d in C.walk_atoms(c) if d[0] == "fn" and d[1].endswith(".upper")]
     ctx.check(bool(ups), "_has_match: requested names are compared in upper case (data block names are upper case)", fn, nontrivial=False)
     gv = _w2(ctx, "_get_valid_names", follow=False)
     if gv is not None:
@@ -1140,10 +1212,10 @@ def r8_name_selection(ctx):
 
 
 RULES = [
-    ("C11-R1", r1_cutover_pairs, 30),
-    ("C11-R2", r2_declared_sizes, 30),
-    ("C11-R3", r3_sibling_decoders, 18),
-    ("C11-R4", r4_read_equals_skip, 20),
+    ("C11-R1", r1_cutover_pairs, 45),
+    ("C11-R2", r2_declared_sizes, 45),
+    ("C11-R3", r3_sibling_decoders, 16),
+    ("C11-R4", r4_read_equals_skip, 24),
     ("C11-R5", r5_listing_equals_read, 12),
     ("C11-R6", r6_cursor, 3),
     ("C11-R7", r7_announced_format, 4),
